@@ -30,6 +30,38 @@ def install(prog):
             return NONE
         return some(number('f64', f))
 
+    @B('re:^<(serde_json|serde_yaml)::Value as From>::from$', 're:^<(serde_json|serde_yaml)::value::Value as From>::from$')
+    def b_value_from(ctx, a, callee):
+        crate = 'serde_json' if 'serde_json' in callee.split(' as ')[0] else 'serde_yaml'
+        m = re.search(r'From<(.*)>>::from$', callee, re.S)
+        t = norm_type(m.group(1)).lstrip('&') if m else ''
+        v = D(a[0])
+        V = crate + '::Value'
+        if t in ('f64', 'f32') or (not t and (type(v) is float or (is_sym(v) and z3.is_fp(v)))):
+            if crate == 'serde_json':
+                # `Number::from_f64(f).map_or(Value::Null, Value::Number)`: a non-finite float silently becomes null
+                if is_sym(v):
+                    fin = z3.Not(z3.Or(z3.fpIsNaN(v), z3.fpIsInf(v)))
+                    return Agg(V, 2, (number('f64', v),)) if ctx.branch(fin) else Agg(V, 0, ())
+                if v != v or v in (float('inf'), float('-inf')):
+                    return Agg(V, 0, ())
+            return Agg(V, 2, (number('f64', v),))
+        if re.fullmatch(r'i(8|16|32|64|size)', t):
+            return Agg(V, 2, (number('i64', v),))
+        if re.fullmatch(r'u(8|16|32|64|size)', t):
+            return Agg(V, 2, (number('u64', v),))
+        if t == 'bool':
+            return Agg(V, 1, (v,))
+        if t in ('str', 'String', 'std::string::String') or t.startswith(('Cow<', 'std::borrow::Cow<')) or type(v) in (str, SymStr):
+            return Agg(V, 3, (v,))
+        if t == '()':
+            return Agg(V, 0, ())
+        if t.startswith(('Vec<', 'std::vec::Vec<')) and type(v) is VecV and all(type(D(x)) is Agg and D(x).ty.endswith('::Value') for x in v.items):
+            return Agg(V, 4, (v,))
+        if type(v) is Agg and v.ty == 'Number':
+            return Agg(V, 2, (v,))
+        raise Unsupported('Value::from(%s)' % t)
+
     @B('serde_yaml::to_value', 'serde_json::to_value')
     def b_to_value(ctx, a, callee):
         v = D(a[0])
